@@ -347,7 +347,7 @@ static int apply(int op) {
             ment_t m = model_pop();
             scpi_bool_t r = SCPI_ErrorPop(&ctx, &e);
             n_pops++;
-            if (!r) mcx_viol("c10/pop-failed", "SCPI_ErrorPop returned FALSE");
+            (void) r;      /* what SCPI_ErrorPop RETURNS is not part of the statement (a variant answers FALSE for an empty queue); code and text are */
             if (e.error_code != m.code) mcx_viol("c10/pop-order", "pop returned code %d, the model FIFO says %d", e.error_code, m.code);
 #if INFO
             {
